@@ -21,7 +21,7 @@ func init() {
 		Assumptions: []string{"'no effect' is judged on the projection named in the property (events, votes, validator changes, answers to other senders); the per-sender nonce set and block-seen entries of non-keypers are not observable and are excluded"},
 		Real:        []string{"app.ShutterApp", "shmsg", "shutterevents"},
 		Stub:        []string{"Tendermint consensus, mempool, block store (simtm)"},
-		QuickRuns:   5000, ThoroughRuns: 500000, QuickMinimize: 300, ThoroughMinimize: 2000,
+		QuickRuns:   20000, ThoroughRuns: 500000, QuickMinimize: 300, ThoroughMinimize: 2000,
 	})
 }
 
